@@ -9,29 +9,50 @@ Proof. rewrite lookk_ensure. destruct (lookk fs k); [discriminate|]. destruct (f
 Lemma ensure_keeps_defined fs k v c k' : lookk fs k' <> None -> lookk (ensure_wfactor fs k v c) k' <> None.
 Proof. rewrite lookk_ensure. destruct (lookk fs k'); [discriminate|congruence]. Qed.
 
-Lemma ensure_exports_keeps_defined cs fs fs' k : ensure_exports fs cs = Ok fs' -> lookk fs k <> None -> lookk fs' k <> None.
+Lemma ensure_exports_keeps_defined wf cs fs fs' k : ensure_exports wf fs cs = Ok fs' -> lookk fs k <> None -> lookk fs' k <> None.
 Proof.
-  intros H L. destruct (lookk fs k) as [x|] eqn:E; [|congruence]. rewrite (ensure_exports_keeps cs fs fs' k x H E). discriminate.
+  intros H L. destruct (lookk fs k) as [x|] eqn:E; [|congruence]. rewrite (ensure_exports_keeps wf cs fs fs' k x H E). discriminate.
 Qed.
 
-(** every (c, s) of the list whose supply factor is defined gets its four export keys *)
-Lemma ensure_exports_defines cs : forall fs fs' c s dest step,
-  ensure_exports fs cs = Ok fs' -> In (c, s) cs -> lookk fs (c, s, SUMINISTRO, STEP_A) <> None ->
+(** every (c, s) of the list whose supply factor is defined gets its four export keys, when the carrier has a grid factor *)
+Lemma ensure_exports_defines wf cs : forall fs fs' c s dest step,
+  ensure_exports wf fs cs = Ok fs' -> In (c, s) cs -> lookk fs (c, s, SUMINISTRO, STEP_A) <> None ->
+  lookk fs (grid_key c) <> None ->
   dest <> SUMINISTRO -> lookk fs' (c, s, dest, step) <> None.
 Proof.
-  induction cs as [|[c0 s0] cs IH]; intros fs fs' c s dest step H Hin Hs Hd; [contradiction|].
+  induction cs as [|[c0 s0] cs IH]; intros fs fs' c s dest step H Hin Hs Hg Hd; [contradiction|].
   cbn [ensure_exports] in H.
   set (fs1 := match lookk fs (c0, s0, SUMINISTRO, STEP_A) with Some v => _ | None => fs end) in *.
-  destruct (lookk fs1 (grid_key c0)) as [g|] eqn:G; [|discriminate].
-  set (fs2 := ensure_wfactor (ensure_wfactor fs1 (c0, s0, A_RED, STEP_B) g []) (c0, s0, A_NEPB, STEP_B) g []) in *.
-  destruct Hin as [E|Hin].
-  - injection E as -> ->. eapply ensure_exports_keeps_defined; [exact H|].
-    destruct (lookk fs (c, s, SUMINISTRO, STEP_A)) as [v|] eqn:S; [|congruence].
-    destruct dest; [congruence| |]; destruct step; unfold fs2, fs1;
-      repeat first [apply ensure_defines | apply ensure_keeps_defined].
-  - eapply IH; [exact H|exact Hin| |exact Hd].
-    unfold fs2. apply ensure_keeps_defined, ensure_keeps_defined. unfold fs1.
-    destruct (lookk fs (c0, s0, SUMINISTRO, STEP_A)); [apply ensure_keeps_defined, ensure_keeps_defined|]; exact Hs.
+  assert (K1 : forall k0, lookk fs k0 <> None -> lookk fs1 k0 <> None).
+  { intros k0 H0. unfold fs1. destruct (lookk fs (c0, s0, SUMINISTRO, STEP_A)); [apply ensure_keeps_defined, ensure_keeps_defined|]; exact H0. }
+  destruct (lookk fs1 (grid_key c0)) as [g|] eqn:G.
+  - set (fs2 := ensure_wfactor (ensure_wfactor fs1 (c0, s0, A_RED, STEP_B) g []) (c0, s0, A_NEPB, STEP_B) g []) in *.
+    destruct Hin as [E|Hin].
+    + injection E as -> ->. eapply ensure_exports_keeps_defined; [exact H|].
+      destruct (lookk fs (c, s, SUMINISTRO, STEP_A)) as [v|] eqn:S; [|congruence].
+      destruct dest; [congruence| |]; destruct step; unfold fs2, fs1;
+        repeat first [apply ensure_defines | apply ensure_keeps_defined].
+    + eapply IH; [exact H|exact Hin| | |exact Hd]; unfold fs2; apply ensure_keeps_defined, ensure_keeps_defined, K1; assumption.
+  - destruct (existsb (Carrier_beq c0) wf); [discriminate|].
+    destruct Hin as [E|Hin].
+    + injection E as -> ->. exfalso. apply (K1 _ Hg). exact G.
+    + eapply IH; [exact H|exact Hin| | |exact Hd]; apply K1; assumption.
+Qed.
+
+(** supply keys are not touched by ensure_exports *)
+Lemma ensure_exports_supply wf cs : forall fs fs' c s st,
+  ensure_exports wf fs cs = Ok fs' -> lookk fs' (c, s, SUMINISTRO, st) = lookk fs (c, s, SUMINISTRO, st).
+Proof.
+  induction cs as [|[c0 s0] cs IH]; intros fs fs' c s st H; cbn [ensure_exports] in H; [now injection H as <-|].
+  set (fs1 := match lookk fs (c0, s0, SUMINISTRO, STEP_A) with Some v => _ | None => fs end) in *.
+  assert (N : forall c1 s1 d1 st1, d1 <> SUMINISTRO -> fkey_eqb (c1, s1, d1, st1) (c, s, SUMINISTRO, st) = false).
+  { intros c1 s1 d1 st1 Hd. destruct (fkey_eqb_spec (c1, s1, d1, st1) (c, s, SUMINISTRO, st)) as [E|]; [|reflexivity]. injection E as _ _ E _. congruence. }
+  assert (E1 : lookk fs1 (c, s, SUMINISTRO, st) = lookk fs (c, s, SUMINISTRO, st)).
+  { unfold fs1. destruct (lookk fs (c0, s0, SUMINISTRO, STEP_A)); [|reflexivity].
+    rewrite !lookk_ensure, !N by discriminate. destruct (lookk fs (c, s, SUMINISTRO, st)); reflexivity. }
+  destruct (lookk fs1 (grid_key c0)) as [g|].
+  - rewrite (IH _ _ c s st H), !lookk_ensure, !N by discriminate. rewrite E1. destruct (lookk fs (c, s, SUMINISTRO, st)); reflexivity.
+  - destruct (existsb (Carrier_beq c0) wf); [discriminate|]. rewrite (IH _ _ c s st H). exact E1.
 Qed.
 
 Lemma in_carriers_of fs c : In c (carriers_of fs) <-> exists f, In f fs /\ f_cr f = c.
@@ -54,42 +75,58 @@ Section Complete.
   Variables (fs fs' : list Factor) (d1 d2 : RNC).
   Hypothesis Hnorm : normalize_factors fs d1 d2 = Ok fs'.
 
-  Lemma norm_parts : exists fs2, ensure_exports (forced_updates fs) exp_carriers = Ok fs2 /\
+  Lemma norm_parts : exists fs2, ensure_exports (carriers_of fs) (forced_updates fs) exp_carriers = Ok fs2 /\
     fs' = ensure_wfactor (ensure_wfactor fs2 K_RED1 d1 []) K_RED2 d2 [].
   Proof.
     pose proof Hnorm as H. rewrite normalize_unfold in H. cbv zeta in H. destruct (negb _); [discriminate|].
-    destruct (ensure_exports (forced_updates fs) exp_carriers) as [fs2|]; cbn [bind] in H; [|discriminate].
+    destruct (ensure_exports (carriers_of fs) (forced_updates fs) exp_carriers) as [fs2|]; cbn [bind] in H; [|discriminate].
     injection H as <-. eauto.
   Qed.
 
-  Lemma el_grid_defined : lookk fs (grid_key ELECTRICIDAD) <> None.
-  Proof. intros N. rewrite (normalize_needs_el fs d1 d2 N) in Hnorm. discriminate. Qed.
-
-  Lemma el_in_carriers : existsb (Carrier_beq ELECTRICIDAD) (carriers_of fs) = true.
+  (** the grid factor of electricity is the supplied one: a set that says nothing about electricity stays so *)
+  Lemma el_grid_same : lookk fs' (grid_key ELECTRICIDAD) = lookk fs (grid_key ELECTRICIDAD).
   Proof.
-    apply existsb_exists. exists ELECTRICIDAD. split; [|reflexivity].
-    exact (lookk_defined_carrier fs _ _ _ _ el_grid_defined).
+    destruct norm_parts as (fs2 & E & ->). rewrite !lookk_ensure.
+    unfold grid_key. rewrite (ensure_exports_supply _ _ _ _ ELECTRICIDAD RED STEP_A E).
+    rewrite forced_updates_other by (cbn; intuition discriminate).
+    destruct (lookk fs (ELECTRICIDAD, RED, SUMINISTRO, STEP_A)); reflexivity.
   Qed.
 
-  Lemma insitu_supply_forced c : In (c, INSITU) exp_carriers -> lookk (forced_updates fs) (c, INSITU, SUMINISTRO, STEP_A) = Some one.
+  Lemma el_in_carriers : lookk fs' (grid_key ELECTRICIDAD) <> None -> existsb (Carrier_beq ELECTRICIDAD) (carriers_of fs) = true.
   Proof.
-    intros H. cbn in H. destruct H as [E|[E|[E|[]]]]; injection E as <-.
-    - unfold forced_updates. rewrite el_in_carriers, lookk_update. reflexivity.
+    rewrite el_grid_same. intros H. apply existsb_exists. exists ELECTRICIDAD. split; [|reflexivity].
+    exact (lookk_defined_carrier fs _ _ _ _ H).
+  Qed.
+
+  Lemma insitu_supply_forced c : In (c, INSITU) exp_carriers -> lookk fs' (grid_key c) <> None ->
+    lookk (forced_updates fs) (c, INSITU, SUMINISTRO, STEP_A) = Some one.
+  Proof.
+    intros H G. cbn in H. destruct H as [E|[E|[E|[]]]]; injection E as <-.
+    - unfold forced_updates. rewrite (el_in_carriers G), lookk_update. reflexivity.
     - apply forced_updates_forced. cbn. tauto.
     - apply forced_updates_forced. cbn. tauto.
   Qed.
 
-  Lemma insitu_supply_defined c : In (c, INSITU) exp_carriers -> lookk fs' (c, INSITU, SUMINISTRO, STEP_A) <> None.
+  Lemma insitu_supply_defined c : In (c, INSITU) exp_carriers -> lookk fs' (grid_key c) <> None ->
+    lookk fs' (c, INSITU, SUMINISTRO, STEP_A) <> None.
   Proof.
-    intros H. destruct norm_parts as (fs2 & E & Efs). rewrite Efs. apply ensure_keeps_defined, ensure_keeps_defined.
+    intros H G. destruct norm_parts as (fs2 & E & Efs). rewrite Efs. apply ensure_keeps_defined, ensure_keeps_defined.
     eapply ensure_exports_keeps_defined; [exact E|]. rewrite insitu_supply_forced by assumption. discriminate.
   Qed.
 
-  Lemma insitu_export_defined c dest step : In (c, INSITU) exp_carriers -> dest <> SUMINISTRO ->
+  Lemma grid_forced c : lookk fs' (grid_key c) <> None -> In (c, INSITU) exp_carriers -> lookk (forced_updates fs) (grid_key c) <> None.
+  Proof.
+    intros G H. destruct norm_parts as (fs2 & E & Efs). rewrite Efs in G. rewrite !lookk_ensure in G. unfold grid_key in *.
+    rewrite (ensure_exports_supply _ _ _ _ c RED STEP_A E) in G.
+    destruct (lookk (forced_updates fs) (c, RED, SUMINISTRO, STEP_A)); [discriminate|].
+    exfalso. cbn in H. destruct H as [Q|[Q|[Q|[]]]]; injection Q as <-; cbn in G; congruence.
+  Qed.
+
+  Lemma insitu_export_defined c dest step : In (c, INSITU) exp_carriers -> lookk fs' (grid_key c) <> None -> dest <> SUMINISTRO ->
     lookk fs' (c, INSITU, dest, step) <> None.
   Proof.
-    intros H Hd. destruct norm_parts as (fs2 & E & Efs). rewrite Efs. apply ensure_keeps_defined, ensure_keeps_defined.
-    eapply ensure_exports_defines; [exact E|exact H| |exact Hd]. rewrite insitu_supply_forced by assumption. discriminate.
+    intros H G Hd. destruct norm_parts as (fs2 & E & Efs). rewrite Efs. apply ensure_keeps_defined, ensure_keeps_defined.
+    eapply ensure_exports_defines; [exact E|exact H| |apply grid_forced; assumption|exact Hd]. rewrite insitu_supply_forced by assumption. discriminate.
   Qed.
 End Complete.
 
@@ -171,7 +208,7 @@ Proof.
           exfalso. assert (Z : a_del_onst (mk_ctx cr lm data) = 0).
           { apply del_onst_zero. intros j Hcj _. destruct j; cbn in Hcj; congruence. }
           rewrite Z in D. destruct (qeqb_spec 0 0); [discriminate|congruence]. }
-        destruct Hj as (j & <- & Hs). apply (insitu_supply_defined fs fs' d1 d2 Hnorm). now apply onsite_src_exp.
+        destruct Hj as (j & <- & Hs). apply (insitu_supply_defined fs fs' d1 d2 Hnorm); [now apply onsite_src_exp|]. apply Hgrid, Hc. now left.
       - destruct (qeqb (a_exp_ne (mk_ctx cr lm data) + a_exp_grid (mk_ctx cr lm data)) 0) eqn:EA; [contradiction|].
         apply in_flat_map in Hk as (j & Hj & Hk). destruct (srcs_carrier cr lm data j Hj) as [Hcj Hex].
         assert (Hd : exists dest step, key = (cr, ps_source j, dest, step) /\ dest <> SUMINISTRO).
@@ -180,7 +217,7 @@ Proof.
           - destruct (qeqb (a_exp_grid (mk_ctx cr lm data)) 0); [contradiction|]. destruct Hk as [<-|[<-|[]]]; eexists _, _; split; try reflexivity; discriminate. }
         destruct Hd as (dest & step & -> & Hd).
         destruct (Source_eq_dec (ps_source j) INSITU) as [Hs|Hs].
-        + rewrite Hs, <- Hcj. apply Hdef. apply (insitu_export_defined fs fs' d1 d2 Hnorm); [now apply onsite_src_exp|exact Hd].
+        + rewrite Hs, <- Hcj. apply Hdef. apply (insitu_export_defined fs fs' d1 d2 Hnorm); [now apply onsite_src_exp| |exact Hd]. rewrite Hcj. apply Hgrid, Hc. now left.
         + assert (j = EL_COGEN) by (destruct j; cbn in Hs; congruence). subst j. cbn in Hcj. subst cr. cbn [ps_source].
           destruct Hfs1 as [[-> N0]|(fa & g & ->)]; [|now apply cgn_extra_defines].
           (* no cogeneration factors were added: the cogenerated production has no steps, hence no export *)
